@@ -1,7 +1,8 @@
 \* mode changes on field 1: pop-on captions loaded, flipped, erased; roll-up and paint-on started from them
-CONSTANTS Chans = {1} Rows = {13} Chars = {65} MaxPairs = 7
+CONSTANTS Chans = {1} Rows = {13} Chars = {65} MaxPairs = 6
   Indents = {0} Depths = {2} Tabs = {1}
   Kinds = {"RCL", "EOC", "RU", "RDC", "EDM", "ENM", "PAC", "TEXT"}
+  Beyond = {}
   Mix <- NoMix Bursts <- NoBurst
 SPECIFICATION GSpec
 VIEW gview2
